@@ -12,6 +12,10 @@ Search: the property's clauses on the implementation alone, in five streams:
   spell    the same stress ranges / thickness in every container and number type, positional or keyword;
   history  many calls on ONE curve object against a fresh object per call, caller data and earlier results untouched;
   ctor     the same parameters through every constructor spelling / number type define the same curve.
+Over-defined curves (documented: "If S-N curve is overdefined (e.g. both loga1 and a1 are defined), the S-N curve is established
+based on the parameter order listed", i.e. by a1): a curve may carry an explicit `a1` next to `loga1` -- the pair as printed in a
+design-code table (a1 rounded to 3..5 significant digits, so 10**loga1 != a1), an unrelated loga1, or the exact power.  Such a curve
+goes through every stream like any other; the harness (and the model) know it by log10(a1).
 Every evaluation is wrapped: an exception raised by the implementation is a failing clause.
 """
 import math
@@ -24,7 +28,8 @@ from ..core import fbits, unfbits
 USES_TRANSLATOR = True
 ANCHOR_PREFIX = ("sn_",)
 RULE = ("seeded S-N curves (single / bilinear incl. m2 == m1 and m2 < m1, with / without thickness parameters, built from a1, loga1, "
-        "both, all-keyword, explicit None options, positional m1; parameters as float / int / numpy scalars) x stress ranges "
+        "both, all-keyword, explicit None options, positional m1; over-defined with a tabulated pair a1 / loga1 that agrees only to "
+        "the printed digits, or with an unrelated loga1 (a1 decides); parameters as float / int / numpy scalars) x stress ranges "
         "log-uniform in [0.5, 2000], scaled by 2^±(30..200) while the capacity stays finite, points at sswitch/tcorr*(1±2^-k), "
         "integers around the knee x thickness None / <= t_ref / == t_ref(1±2^-52) / > t_ref / 1e-6 t_ref / 1e4 t_ref, as float, int, "
         "numpy scalar, 0-d array, positional or keyword; stress containers ndarray / list / tuple / view / reversed / 2-D / "
@@ -172,7 +177,28 @@ def gen_curve(rng):
     if rng.random() < 0.5:
         ctor = rng.choice(CTORS)
     num = rng.choice(["float", "float", "float", "int", "np", "npint"])
-    return dict(m1=m1, loga1=loga1, m2=m2, nswitch=nsw, t_exp=te, t_ref=tr, ctor=ctor, num=num)
+    c = dict(m1=m1, loga1=loga1, m2=m2, nswitch=nsw, t_exp=te, t_ref=tr, ctor=ctor, num=num)
+    # over-defined curve: a1 given next to loga1.  The pair of a design-code table (a1 printed with 3..5 significant digits), a
+    # loga1 that has nothing to do with a1, or the exact power.  a1 decides (documented parameter order).
+    if rng.random() < 0.3:
+        r = rng.random()
+        if r < 0.6:
+            a1 = float("%.*e" % (rng.choice([2, 3, 3, 4]), 10 ** loga1))
+        elif r < 0.8:
+            a1 = 10 ** (loga1 + rng.uniform(-0.5, 0.5))
+        elif r < 0.9:
+            a1 = float(round(10 ** loga1))
+        else:
+            a1 = 10 ** loga1
+        c["a1"] = a1
+        if ctor == "loga1":
+            c["ctor"] = rng.choice(["both", "both", "dict", "pos", "nones"])
+    return c
+
+
+def ref_ctor(c):
+    """the plainest spelling of the curve: loga1 alone, or a1 alone when the curve carries an explicit a1"""
+    return "a1" if c.get("a1") is not None else "loga1"
 
 
 def build(c, ctor=None, num=None):
@@ -181,7 +207,12 @@ def build(c, ctor=None, num=None):
     how = num or c.get("num", "float")
     f = lambda v: sp(v, how)
     kw = dict(m1=f(c["m1"]))
-    if ctor in ("a1", "both"):
+    if c.get("a1") is not None:
+        # explicit a1: given in every spelling; every spelling but "a1" also gives loga1 (over-defined, a1 decides)
+        if ctor == "loga1":
+            ctor = "both"
+        kw["a1"] = f(c["a1"])
+    elif ctor in ("a1", "both"):
         kw["a1"] = f(10 ** c["loga1"])
     if ctor != "a1":
         kw["loga1"] = f(c["loga1"])
@@ -205,6 +236,8 @@ def build(c, ctor=None, num=None):
 
 def model_loga1(c):
     """log10(a1) as the harness computes it from what it hands to the constructor"""
+    if c.get("a1") is not None:
+        return math.log10(c["a1"])
     if c.get("ctor", "loga1") in ("a1", "both"):
         return math.log10(10 ** c["loga1"])
     return c["loga1"]
@@ -484,7 +517,7 @@ def run_ctor(case):
     c = case["curve"]
     out = []
     try:
-        ref, _ = build(c, ctor="loga1", num="float")
+        ref, _ = build(c, ctor=ref_ctor(c), num="float")
         sn, _ = build(c, ctor=case["ctor2"], num=case["num2"])
     except Exception as e:
         return [("a valid S-N curve can be constructed from a1 or loga1, with parameters as float / int / numpy scalars "
@@ -523,7 +556,7 @@ def gen_ctor(rng, c, quick):
     tc = tfac(c, t)
     vals = [10 ** rng.uniform(-0.3, 3.3) for _ in range(2)] + ([] if sw is None else [sw / tc, sw / tc * (1 - 2.0 ** -30), sw / tc * 1.5])
     ns = [10 ** rng.uniform(3, 10)] + ([] if sw is None else [c["nswitch"], c["nswitch"] * 3.0])
-    combos = [(a, b) for a in CTORS for b in NUMS]
+    combos = [(a, b) for a in CTORS for b in NUMS if not (a == "loga1" and c.get("a1") is not None)]
     if quick:
         combos = rng.sample(combos, 6)
     return [dict(curve=pub(c), kind="ctor", ctor2=a, num2=b, vals=vals, ns=ns, t=t) for a, b in combos]
@@ -792,7 +825,12 @@ def switch_clauses(c):
 def eval_main(chk, kind, c, sn, v, t, o, inp):
     if kind == "derived":
         if not close(float(sn.a1), 10 ** float(sn.loga1), 1e-12):
-            chk.fail("a1 == 10**loga1", inp, 10 ** float(sn.loga1), float(sn.a1))
+            try:
+                given = {k: repr(x) for k, x in build(c)[1].items()}
+            except Exception:
+                given = None
+            chk.fail("the attributes a1 and loga1 describe the same intercept: a1 == 10**loga1", dict(inp, kind="derived", given=given),
+                     10 ** float(sn.loga1), float(sn.a1))
         if not close(float(sn.loga1), model_loga1(c), 1e-13):
             chk.disagree("sn.derived", inp, model_loga1(c), float(sn.loga1))
         if c["m2"] is None:
